@@ -20,6 +20,37 @@ macro_rules! vt_proof {
         pub fn $name() $body
     };
 }
+/// Page-level harness: base stubs + `core::ptr::copy` as a byte loop (see common::stub_ptr_copy).
+#[macro_export]
+macro_rules! vt_proof_pg {
+    (unwind = $u:expr; fn $name:ident() $body:block) => {
+        #[cfg(kani)]
+        #[kani::proof]
+        #[kani::stub(eyre::capture_handler, $crate::common::stub_capture_handler)]
+        #[kani::stub(alloc::fmt::format, $crate::common::stub_format)]
+        #[kani::stub(<eyre::Report as core::ops::Drop>::drop, $crate::common::stub_report_drop)]
+        #[kani::stub(core::arch::x86_64::__cpuid_count, $crate::common::stub_cpuid_noavx)]
+        #[kani::stub(core::ptr::copy, $crate::common::stub_ptr_copy)]
+        #[kani::unwind($u)]
+        pub fn $name() $body
+    };
+}
+/// Page-level harness with `find_key_simd` replaced by its specification (see common::stub_find_key_simd).
+#[macro_export]
+macro_rules! vt_proof_pg_findspec {
+    (unwind = $u:expr; fn $name:ident() $body:block) => {
+        #[cfg(kani)]
+        #[kani::proof]
+        #[kani::stub(eyre::capture_handler, $crate::common::stub_capture_handler)]
+        #[kani::stub(alloc::fmt::format, $crate::common::stub_format)]
+        #[kani::stub(<eyre::Report as core::ops::Drop>::drop, $crate::common::stub_report_drop)]
+        #[kani::stub(core::arch::x86_64::__cpuid_count, $crate::common::stub_cpuid_noavx)]
+        #[kani::stub(core::ptr::copy, $crate::common::stub_ptr_copy)]
+        #[kani::stub(turdb::btree::simd_scan::find_key_simd, $crate::common::stub_find_key_simd)]
+        #[kani::unwind($u)]
+        pub fn $name() $body
+    };
+}
 /// Same, with the "AVX2" CPU model.
 #[macro_export]
 macro_rules! vt_proof_avx2 {
@@ -53,6 +84,8 @@ macro_rules! for_prefix {
     }};
 }
 
+pub mod c15;
+pub mod c16;
 pub mod c26;
 pub mod c27;
 #[cfg(feature = "sp")]
@@ -63,6 +96,10 @@ pub mod c28;
 pub mod c30;
 pub mod c31;
 pub mod c33;
+pub mod c39;
+#[cfg(feature = "sp")]
+pub mod c34;
+pub mod c41;
 
 #[cfg(all(kani, test))]
 mod replay_gen;
